@@ -427,7 +427,7 @@ Lemma open_reader_unfold data s1 :
     decode_indexes_loop (S (length data)) data (zN (flen data - foot)) back 0 [] log = inr (idxs, log') /\
     merge_indexes [] idxs = Some recs /\
     append_record recs (zN foot) 0 footerType = Some recs' /\
-    s1 = snd (seek (mkXR data recs' 0 0 0 (0, 0, 0) (mkZr [] 0 None 0 false) None log') 0 0).
+    s1 = snd (seek (mkXR data recs' 0 0 0 (0, 0, 0) (mkZr [] 0 None 0 false false) None log') 0 0).
 Proof.
   unfold open_reader. fold (flen data).
   destruct (decode_footer data) as [e|[[back foot] log]] eqn:E1; [discriminate|].
@@ -791,6 +791,14 @@ Proof.
   - left; reflexivity.
 Qed.
 
+Lemma RI_latch s k e : RI s k -> err_ok (Some e) -> RI (latch_err s e) k.
+Proof.
+  intros R He. unfold latch_err.
+  replace (r_chk s) with (fst (fst (r_chk s)), snd (fst (r_chk s)), snd (r_chk s))
+    by (destruct (r_chk s) as [[? ?] ?]; reflexivity).
+  apply RI_set_err; [exact R | exact He | reflexivity].
+Qed.
+
 (* A3, the loop: the budget decreases by at most 2 per record passed, 1 per byte delivered,
    1 for the pending discard, and 2 more for the final (latched) outcome *)
 Lemma read_loop_total : forall fuel s n acc k,
@@ -800,15 +808,17 @@ Lemma read_loop_total : forall fuel s n acc k,
   err_ok (snd (fst (read_loop fuel s n acc))) /\ exists k', RI (snd (read_loop fuel s n acc)) k'.
 Proof.
   induction fuel as [|f IH]; intros s n acc k R Hf1 Hf; [lia|].
-  cbn [read_loop]. destruct (r_err s) as [e|] eqn:He.
-  { cbn [fst snd]. split; [rewrite <- He; exact (i_err _ _ R) | exists k; exact R]. }
+  destruct (r_err s) as [e|] eqn:He.
+  { cbn [read_loop]. rewrite He. cbn [fst snd]. split; [rewrite <- He; exact (i_err _ _ R) | exists k; exact R]. }
   specialize (Hf eq_refl). pose proof (i_k _ _ R) as Hk.
   destruct (n =? 0)%N eqn:En.
-  { cbn [fst snd]. split; [left; reflexivity | exists k; exact R]. }
+  { cbn [read_loop]. rewrite He, En. cbn [fst snd]. split; [left; reflexivity | exists k; exact R]. }
   apply N.eqb_neq in En.
   destruct (0 <? r_discard s) eqn:Ed.
-  - apply Z.ltb_lt in Ed.
-    destruct (Z.to_N (r_discard s) <=? N.of_nat (length (z_rest (r_zr s))))%N.
+  - apply Z.ltb_lt in Ed. cbn [read_loop]. rewrite He.
+    replace (n =? 0)%N with false by (symmetry; apply N.eqb_neq; exact En).
+    replace (0 <? r_discard s) with true by (symmetry; apply Z.ltb_lt; exact Ed).
+    match goal with |- context[if ?c then read_loop f _ n acc else _] => destruct c end.
     + change (read_loop f _ n acc) with (read_loop f (discard_state s) n acc).
       apply (IH (discard_state s) n acc k (discard_RI s k R Ed)); [lia|].
       intros _. cbn [discard_state r_discard]. cbn. lia.
@@ -823,7 +833,10 @@ Proof.
   - apply Z.ltb_ge in Ed. pose proof (i_disc _ _ R) as Hd.
     assert (Hd0 : r_discard s = 0) by lia.
     destruct (z_rest (r_zr s)) as [|b rest] eqn:Hz.
-    + rewrite (zr_read_nil _ _ Hz).
+    + cbn [read_loop]. rewrite He.
+      replace (n =? 0)%N with false by (symmetry; apply N.eqb_neq; exact En).
+      replace (0 <? r_discard s) with false by (symmetry; apply Z.ltb_ge; exact Ed).
+      rewrite (zr_read_nil _ _ Hz).
       destruct (z_end (r_zr s)) as [e|] eqn:Eze.
       * cbn [fst snd].
         assert (Hzo : err_ok (Some e)).
@@ -839,16 +852,41 @@ Proof.
         -- apply (IH (chunk_end s) n acc (k + 1) R1); [lia|]. intros _.
            rewrite Hdz. cbn [Z.ltb Z.compare]. lia.
     + assert (Hne : z_rest (r_zr s) <> []) by (rewrite Hz; discriminate).
-      rewrite (zr_read_cons _ _ Hne).
+      rewrite (read_loop_data_step f s n acc He En Ed Hne). cbv zeta.
+      try rewrite <- Hz in *.
       set (chunk := firstn (N.to_nat n) (z_rest (r_zr s))).
       assert (Hm1 : (1 <= length chunk)%nat).
       { unfold chunk. rewrite firstn_length, Hz. cbn [length]. lia. }
       assert (Hmn : (length chunk <= N.to_nat n)%nat).
       { unfold chunk. rewrite firstn_length. lia. }
-      change (read_loop f _ (n - N.of_nat (length chunk)) (acc ++ chunk))
-        with (read_loop f (data_state s n) (n - N.of_nat (length chunk)) (acc ++ chunk)).
-      apply (IH (data_state s n) _ _ k (data_RI s k n R Hd0 Hne)); [lia|].
-      intros _. cbn [data_state r_discard]. cbn [Z.ltb Z.compare]. lia.
+      pose proof (data_RI s k n R Hd0 Hne) as Rd.
+      destruct (zr_status_now (r_zr (data_state s n))).
+      * (* the final status came with these bytes: latched, or the chunk ends, in this call *)
+        assert (Hnext : forall sX kX, RI sX kX ->
+                  (r_err sX = None ->
+                   (2 * Z.to_nat (L - kX) + N.to_nat (n - N.of_nat (length chunk))
+                    + (if (0 <? r_discard sX)%Z then 1 else 0) + 2 <= f)%nat) ->
+                  err_ok (snd (fst (if (n - N.of_nat (length chunk) =? 0)%N
+                                    then (acc ++ chunk, None, sX)
+                                    else read_loop f sX (n - N.of_nat (length chunk)) (acc ++ chunk)))) /\
+                  exists k', RI (snd (if (n - N.of_nat (length chunk) =? 0)%N
+                                      then (acc ++ chunk, None, sX)
+                                      else read_loop f sX (n - N.of_nat (length chunk)) (acc ++ chunk))) k').
+        { intros sX kX RX HfX. destruct (n - N.of_nat (length chunk) =? 0)%N.
+          - cbn [fst snd]. split; [left; reflexivity | exists kX; exact RX].
+          - apply (IH sX _ _ kX RX); [lia | exact HfX]. }
+        destruct (z_end (r_zr s)) as [e|] eqn:Eze.
+        -- assert (Hzo : err_ok (Some e)).
+           { destruct (i_zend _ _ R) as [E|[E|E]]; rewrite Eze in E; inversion E; subst;
+               [right; right; right; left | right; right; left]; reflexivity. }
+           apply (Hnext _ k (RI_latch _ k e Rd Hzo)). cbn [latch_err r_err]. discriminate.
+        -- destruct (chunk_end_total (data_state s n) k Rd eq_refl eq_refl)
+             as [[E1 R1]|[[E1 [k' R1]]|[E1 [Hlt [R1 Hdz]]]]].
+           ++ apply (Hnext _ k R1). rewrite E1. discriminate.
+           ++ apply (Hnext _ k' R1). rewrite E1. discriminate.
+           ++ apply (Hnext _ (k + 1) R1). intros _. rewrite Hdz. cbn [Z.ltb Z.compare]. lia.
+      * apply (IH (data_state s n) _ _ k Rd); [lia|].
+        intros _. cbn [data_state r_discard]. cbn [Z.ltb Z.compare]. lia.
 Qed.
 
 Lemma read_RI s k n :
@@ -911,7 +949,7 @@ Proof.
   pose proof (merge_indexes_tab _ _ _ E3 tab_ok_nil) as Ht.
   destruct (append_record_tab _ _ _ _ _ E4 Ht) as [Ht' (x & Hx & _)].
   assert (HL : 1 <= zlen recs') by (rewrite Hx; unfold zlen; rewrite app_length; cbn [length]; lia).
-  set (s0 := mkXR data recs' 0 0 0 (0, 0, 0) (mkZr [] 0 None 0 false) None log') in *.
+  set (s0 := mkXR data recs' 0 0 0 (0, 0, 0) (mkZr [] 0 None 0 false false) None log') in *.
   assert (Hr : r_recs s1 = recs') by (rewrite Es, seek_keeps_recs; reflexivity).
   rewrite Hr. split; [exact Ht'|]. split; [exact HL|].
   rewrite Es, seek_unfold. unfold blocked, spos. cbn [s0 r_err Z.eqb Z.ltb Z.compare].
